@@ -113,7 +113,8 @@ def structure(engine):
 def outputs_on_grid(engine, n_in: int):
     res = []
     for row in itertools.product(GRID_VALUES, repeat=n_in):
-        engine.restart()
+        for ov in engine.output_variables:
+            ov.clear()  # (not Engine.restart: reloading the rules would put both engines into the same freshly loaded state)
         for iv, x in zip(engine.input_variables, row):
             iv.value = x
         try:
